@@ -617,6 +617,13 @@ func (t *twin) commit(r *runner, pend []Op) ([]byte, int64) {
 	return st.Commit()
 }
 
+func hx(h []byte) string {
+	if len(h) == 0 {
+		return "(empty tree)"
+	}
+	return fmt.Sprintf("%X", h)
+}
+
 func hashEq(a, b []byte) bool { return (len(a) == 0 && len(b) == 0) || bytes.Equal(a, b) }
 
 // persisted compares what the chain state holds after a commit or a reopen
@@ -706,7 +713,7 @@ func (r *runner) blockCommit(i int, op Op) *Viol {
 			trait = "persisted-content-differs"
 			detail = fmt.Sprintf("; the committed content differs from the block's surviving writes: %s(%s) expected %s, got %s", how, KeyName(k), r.showCell(exp), showBytes(got))
 		}
-		return r.viol("commit-hash-twin", ctx, trait, fmt.Sprintf("version %d hash %X", tv, th), fmt.Sprintf("version %d hash %X", ver, hash),
+		return r.viol("commit-hash-twin", ctx, trait, fmt.Sprintf("version %d hash %s", tv, hx(th)), fmt.Sprintf("version %d hash %s", ver, hx(hash)),
 			"root hash after block-commit differs from the twin store that received only the write projection "+fmt.Sprint(OpStrings(r.pend))+detail)
 	}
 	if r.flat != nil {
@@ -714,7 +721,7 @@ func (r *runner) blockCommit(i int, op Op) *Viol {
 		r.stats.FlatTwinCommits++
 		r.stats.Comparisons++
 		if !hashEq(fh, hash) || fv != ver {
-			return r.viol("commit-hash-twin", "flattened-writes", "hash-differs", fmt.Sprintf("version %d hash %X", fv, fh), fmt.Sprintf("version %d hash %X", ver, hash),
+			return r.viol("commit-hash-twin", "flattened-writes", "hash-differs", fmt.Sprintf("version %d hash %s", fv, hx(fh)), fmt.Sprintf("version %d hash %s", ver, hx(hash)),
 				"root hash differs from the twin that received the surviving writes in first-write order without session brackets")
 		}
 	}
